@@ -418,8 +418,8 @@ def r5(ctx, prog):
             other = [u for u in uses if u not in tests]
             ok = bool(tests) and all(any(f.cfg.dominates(q.pt(f, t_), q.pt(f, u)) for t_ in tests) for u in other if q.pt(f, u))
             ctx.ob('C19.R5', '%s(%s)|marker-tested' % (f.name, f.params[-1]['t'] if f.params else ''), ok, 'the 255 marker test dominates every use of the decoded value', where=f.loc(c['i']))
-    if n < 2:
-        raise AnalysisBroken('expected 2 Base64 Decode loops using DecodeChar, found %d' % n)
+    if n < 1:       # one decoding loop is enough: an overload may hand its text to the other (what each overload delivers is replayed by C19.R22)
+        raise AnalysisBroken('expected a Base64 Decode loop using DecodeChar, found %d' % n)
 
 
 def r6(ctx, prog):
@@ -943,4 +943,6 @@ def run(ctx):
     from rules import C19_digests
     ctx.guard(C19_digests.r21, ctx, prog)
     ctx.guard(C19_digests.r22, ctx, prog)
+    from rules import C19_text
+    ctx.guard(C19_text.r23, ctx, prog)
     return prog
